@@ -200,9 +200,9 @@ func vCheckQueries(tagp string, sc *StorageCar, m *vModel, q cid.Cid) {
 // VerifH_C04_StorageHistory: bounded histories on a readable-writable storage CAR against a
 // reference map model, for all option configurations and a collision alphabet of CIDs.
 func VerifH_C04_StorageHistory() {
-	L := 2
+	L, maxLen := 2, 1
 	if vTier() == 1 {
-		L = 3
+		maxLen = 2 // (a third put with every option configuration runs for more than an hour)
 	}
 	m := vNewModel()
 	v1 := vBool("writeAsCarV1")
@@ -213,7 +213,7 @@ func VerifH_C04_StorageHistory() {
 	ctx := context.Background()
 	for i := 0; i < L; i++ {
 		c := vCidT("put")
-		data := vBytes("data", vChoose("len", 2))
+		data := vBytes("data", vChoose("len", maxLen+1))
 		before := len(f.data)
 		nbefore := len(m.entries)
 		wantErr := m.put(c, data)
